@@ -859,7 +859,16 @@ fn load_config_from_string(cfg: &str) -> Result<SharedConfig, Error> {
                     .map_err(|e| e.annotate("while parsing router-advertisements"))?,
                 (Some("dns-servers"), s) => {
                     dns_servers = parse_array("dns-servers", s, parse_string_ip)?
-                        .ok_or_else(|| Error::InvalidConfig("dns-servers cannot be null".into()))?
+                        .ok_or_else(|| Error::InvalidConfig("dns-servers cannot be null".into()))?;
+                    /* The IPv6 addresses are announced in router advertisements */
+                    if dns_servers.iter().filter(|ip| ip.is_ipv6()).count()
+                        > crate::radv::config::MAX_RDNSS_ADDRESSES
+                    {
+                        return Err(Error::InvalidConfig(format!(
+                            "dns-servers has more than {} IPv6 addresses",
+                            crate::radv::config::MAX_RDNSS_ADDRESSES
+                        )));
+                    }
                 }
                 (Some("dns-search"), s) => {
                     dns_search = parse_array("dns-search", s, parse_string)?
